@@ -274,6 +274,9 @@ class Tok:
     start: int
     end: int
     m: Any = None
+    ws: Any = None          # whitespace set in force when the token was matched ('' = no skipping)
+    in_comment: bool = False
+    before: int = -1        # position before whitespace/comments were skipped
 @dataclass
 class Node:
     rule: str
@@ -301,12 +304,19 @@ class Ctx:
         return self.ws
 
 class RefParser:
-    def __init__(self, g, text, skipws=True, ws=None):
+    def __init__(self, g, text, skipws=True, ws=None, emulate=()):
         self.g = g
+        self.emulate = set(emulate)
         self.t = text
         self.base_ctx = Ctx(skipws, ws if ws is not None else '\t\n\r ')
         self.kinds = rule_kinds(g)
         self.steps = 0
+
+    def mk(self, tok, ctx, before):
+        tok.ws = ctx.eff_ws() if ctx.skipws else ''
+        tok.in_comment = ctx.in_comment
+        tok.before = before
+        return tok
 
     def run(self):
         root = self.g.rules[0]
@@ -363,7 +373,7 @@ class RefParser:
         m = re.compile(BASE[name], re.M).match(self.t, p)
         if not m:
             raise Fail()
-        return m.end(), [Tok(name, m.group(), p, m.end(), m)]
+        return m.end(), [self.mk(Tok(name, m.group(), p, m.end(), m), ctx, pos)]
 
     def ex(self, e, pos, ctx):
         self.steps += 1
@@ -379,14 +389,14 @@ class RefParser:
         if isinstance(e, Lit):
             p = self.skip(pos, ctx)
             if t.startswith(e.s, p):
-                return p + len(e.s), [Tok('lit', e.s, p, p + len(e.s))]
+                return p + len(e.s), [self.mk(Tok('lit', e.s, p, p + len(e.s)), ctx, pos)]
             raise Fail()
         if isinstance(e, Re):
             p = self.skip(pos, ctx)
             m = re.compile(e.pat, re.M).match(t, p)
             if not m:
                 raise Fail()
-            return m.end(), ([Tok('re', m.group(), p, m.end(), m)] if m.end() > p else [])
+            return m.end(), ([self.mk(Tok('re', m.group(), p, m.end(), m), ctx, pos)] if m.end() > p else [])
         if isinstance(e, Ref):
             if e.name in BASE_NAMES and self.g.rule(e.name) is None:
                 return self.base(e.name, pos, ctx)
@@ -442,8 +452,13 @@ class RefParser:
                 sep_tr = []
                 if sep is not None and n > 0:
                     p2, sep_tr = self.ex(sep, p2, c)
+            except Fail:
+                break
+            try:
                 p3, tr = self.ex(body, p2, c)
             except Fail:
+                if 'dangling-separator' in self.emulate and collect_sep:
+                    out.extend(sep_tr)
                 break
             if p3 == p:
                 break          # no progress: stop (PEG would loop)
@@ -507,26 +522,54 @@ class RefParser:
         if e.eolterm:
             c = Ctx(ctx.skipws, ctx.ws, True, ctx.in_comment)
         items = []
+        seps = []
         p = pos
         n = 0
         while True:
             try:
                 p2 = p
+                sp = []
                 if e.sep is not None and n > 0:
-                    p2, _ = self.ex(e.sep, p2, c)
+                    p2, sp = self.ex(e.sep, p2, c)
                 p3, tr = self.ex(rhs, p2, c)
             except Fail:
                 break
             if p3 == p:
                 break
             items.append(tr)
+            seps.append(sp)
             p = p3
             n += 1
         if e.op == '+=' and n == 0:
             raise Fail()
         if n == 0:
             return p, []
-        return p, [Asg(e.attr, e.op, items, objref, items[0][0].start if items[0] else pos, p)]
+        a = Asg(e.attr, e.op, items, objref, items[0][0].start if items[0] else pos, p)
+        a.seps = seps
+        return p, [a]
+
+def all_tokens(t):
+    """every token of a derivation tree (assignment values included), in input order"""
+    out = []
+
+    def walk(x):
+        if isinstance(x, Tok):
+            out.append(x)
+        elif isinstance(x, Node):
+            for c in x.children:
+                walk(c)
+        elif isinstance(x, Asg):
+            for it in x.items:
+                walk(it)
+            for sp in getattr(x, 'seps', []):
+                walk(sp)
+        elif isinstance(x, list):
+            for y in x:
+                walk(y)
+    walk(t)
+    out.sort(key=lambda k: k.start)
+    return out
+
 
 def leaves(t):
     if isinstance(t, Tok):
